@@ -49,7 +49,7 @@ def directed():
     out.append(("addremove", ["--enable=unusedFunction"], [a, r1, b, r1, ("edit", ("remove", "a.c")), r2, a, r1]))
     out.append(("rename", [], [a, r1, ("edit", ("rename", "a.c", "sub/a.c")), r1]))
     out.append(("hdrmove", [], [a, r1, ("edit", ("hdr_move",)), r1]))
-    out.append(("staticfn", ["--enable=style,unusedFunction"], [("edit", ("add", "m.c", S("fm", extra=True))), r1, r1]))
+    out.append(("staticfn", ["--enable=style,unusedFunction"], [("edit", ("add", "m.c", S("fm", sc=True))), r1, r1]))
     out.append(("suffixclash", ["--enable=unusedFunction"], [("edit", ("add", "io.c", S("fio"))), ("edit", ("add", "stdio.c", S("fstdio"))), r1, r1]))
     return out
 
@@ -82,14 +82,12 @@ def check(run, replay):
         run.violation("translate:keyfields", "translator cannot read the key composition: %s" % e,
                       {"broken": "translator", "detail": str(e)}, found_input=False)
         return
-    ok = run.prove()
+    ok = run.prove(extra_targets=["theories/Cache/Run.vo"])
     if not ok:
         run.violation("proof:" + PID, "Properties_C18.vo does not build: " + str(run.proof_error())[:300],
                       {"broken": "proof", "detail": run.proof_error()}, found_input=False)
     if not os.path.exists(os.path.join(vlib.COQ, "theories/Cache/Run.vo")):
-        ok2, out, _ = vlib.coq_make(["theories/Cache/Run.vo"])
-        if not ok2:
-            return
+        return
     model = vlib.build_model(PID)
     vh = vlib.build_harness(PID)
     T = C.Tools(model, vh)
@@ -122,12 +120,17 @@ def check(run, replay):
     # ---- stream 3 + property: histories on the real binary
     ti_cache = {}
 
-    def ti_fn(f):
-        # toolinfo of the default options for file f (the file path is streamed once the source does so)
-        if f not in ti_cache:
-            r = T.model_run([["toolinfo"] + C.default_renderings(version, {"render_filePath": f})])[0]
-            ti_cache[f] = r[0] if r else b""
-        return ti_cache[f]
+    def ti_for(opts):
+        # toolinfo of these options for file f (the file path is streamed once the source does so)
+        def ti_fn(f):
+            key = (tuple(opts), f)
+            if key not in ti_cache:
+                o = C.settings_of_cli(opts)
+                o["render_filePath"] = f
+                r = T.model_run([["toolinfo"] + C.default_renderings(version, o)])[0]
+                ti_cache[key] = r[0] if r else b""
+            return ti_cache[key]
+        return ti_fn
     hist = [(tag, opts, steps) for tag, opts, steps in directed()]
     nh = 10 if quick else 150
     for k in range(nh):
@@ -136,7 +139,7 @@ def check(run, replay):
     seen = {}
     for tag, opts, steps in hist:
         # unusedFunction is not part of toolinfo; default renderings hold for both option sets
-        probs = HI.play(run, T, steps, opts, ti_fn, tag)
+        probs = HI.play(run, T, steps, opts, ti_for(opts), tag)
         for key0, what, rep, found in probs:
             rep = dict(rep)
             rep["history_tag"] = tag
